@@ -124,7 +124,8 @@ static void runCase(uint64_t id, Rng rng, size_t nEvents, std::ostream &o, bool 
 	bool varyLevels = rng.chance(1, 4);
 
 	std::ostringstream hdr;
-	hdr << "case " << id << " k=" << k << " N=" << N << " min=" << minDepth << " w=" << w << " lat=" << lat.kind;
+	// only the REQUEST is printed up front; the depth the library chose is read back from the FIFO below (k=, N=)
+	hdr << "case " << id << " min=" << minDepth << " w=" << w << " lat=" << lat.kind;
 	if (lat.kind != 'D') hdr << lat.n;
 	hdr << " dual=" << (dual ? 1 : 0) << " fpush=" << fa << " fpop=" << fb;
 
@@ -141,7 +142,8 @@ static void runCase(uint64_t id, Rng rng, size_t nEvents, std::ostream &o, bool 
 	size_t lw = 0, lr = 0;
 	try {
 		XFifo fifo{ minDepth, UInt{ BitWidth(w) }, mkLat(lat) };
-		HCL_DESIGNCHECK(fifo.depth() == N);
+		N = fifo.depth(); k = 0; while ((size_t(1) << k) < N) k++;   // what the library chose, not what the generator had in mind
+		hdr << " k=" << k << " N=" << N;
 		{
 			ClockScope cs(pushClock);
 			pushData = BitWidth(w);
@@ -547,7 +549,7 @@ static void runTransCase(uint64_t id, Rng rng, size_t nEvents, std::ostream &o) 
 		default: lat = {'M', (size_t)rng.range(1, 5)}; break;
 	}
 	std::ostringstream hdr;
-	hdr << "case " << id << " mode=trans k=" << k << " N=" << N << " min=" << minDepth << " w=" << w << " lat=" << lat.kind;
+	hdr << "case " << id << " mode=trans min=" << minDepth << " w=" << w << " lat=" << lat.kind;
 	if (lat.kind != 'D') hdr << lat.n;
 
 	DesignScope design;
@@ -558,7 +560,8 @@ static void runTransCase(uint64_t id, Rng rng, size_t nEvents, std::ostream &o) 
 	size_t lw = 0, lr = 0;
 	try {
 		XTFifo fifo{ minDepth, UInt{ BitWidth(w) }, mkLat(lat) };
-		HCL_DESIGNCHECK(fifo.depth() == N);
+		N = fifo.depth(); k = 0; while ((size_t(1) << k) < N) k++;
+		hdr << " k=" << k << " N=" << N;
 		auto ipPush = pinIn().setName("push"); pPush = ipPush.node(); Bit push = ipPush;
 		auto ipData = pinIn(BitWidth(w)).setName("push_data"); pData = ipData.node(); UInt data = ipData;
 		auto ipPC = pinIn().setName("push_commit"); pPC = ipPC.node(); Bit pushCommit = ipPC;
